@@ -447,7 +447,7 @@ func VerifC18MapIndexReps() {
 	case 3:
 		idx = nil
 	case 4:
-		idx = []string{"1", "true", "2.5", "k", "zz", "size", "first", "last"}[nd.Choice(8)]
+		idx = []string{"1", "true", "2.5", "k", "zz", "size", "first", "last", "nilv"}[nd.Choice(9)] // "nilv": a key bound to nil is still a key
 	case 5:
 		idx = c18Drop{"k"}
 	case 6:
@@ -456,13 +456,16 @@ func VerifC18MapIndexReps() {
 		idx = int8(1)
 	}
 	v := nd.IntIn(0, 9)
-	plain := map[string]any{"1": v, "true": "T", "2.5": "F", "k": "K", "<nil>": "N"}
-	ordered := yaml.MapSlice{{Key: "1", Value: v}, {Key: "true", Value: "T"}, {Key: "2.5", Value: "F"}, {Key: "k", Value: "K"}, {Key: "<nil>", Value: "N"}}
+	plain := map[string]any{"1": v, "true": "T", "2.5": "F", "k": "K", "<nil>": "N", "nilv": nil}
+	ordered := yaml.MapSlice{{Key: "1", Value: v}, {Key: "true", Value: "T"}, {Key: "2.5", Value: "F"}, {Key: "k", Value: "K"}, {Key: "<nil>", Value: "N"}, {Key: "nilv", Value: nil}}
 	t := "[{{ m[i] }}]{% if m contains i %}c{% endif %}{{ m[i] | size }}"
 	o1, e1 := vRender(t, Bindings{"m": plain, "i": idx})
 	o2, e2 := vRender(t, Bindings{"m": ordered, "i": idx})
 	nd.Assert(e1 == nil && e2 == nil, "map-index-reps-no-error")
 	nd.Assert(o1 == o2, "ordered-map-looked-up-like-a-map")
+	if s, ok := idx.(string); ok && s == "nilv" {
+		nd.Assert(o1 == "[]c0", "key-bound-to-nil-is-contained")
+	}
 	nd.Reach("C18.mapindexreps")
 }
 
